@@ -75,13 +75,15 @@ structure RunRes where
   sets : List (Path × Val)
 deriving DecidableEq
 
-/-- exactly what is fed to the hasher (hash_target.go) -/
+/-- exactly what is fed to the hasher (hash_target.go). `deps`: the output hash of every direct dependency **together
+    with the dependency's label** (`hashTargetDefinition` writes label / output-hash pairs): an output hash by itself
+    covers package-relative output identifiers only, so it does not say which dependency it belongs to. -/
 structure KeyState (κ : Type) where
   label : Lbl
   cmd : Cmd
   inputs : List (Path × Option Val)
   outs : List OutDef
-  deps : List (OH κ)
+  deps : List (Lbl × OH κ)
   fp : List (Bytes × Bytes)
   plat : Bytes
 deriving DecidableEq
@@ -149,9 +151,12 @@ structure Fixes where
   /-- when the stored result of a dependency cannot be read while dependency outputs are loaded, its own
       dependencies are loaded, it is re-run (unless already produced in this build) and the loop continues -/
   loadFault : Bool
+  /-- minimal mode: a target with output checks gets the outputs of its direct dependencies loaded *before* the
+      pre-execution checks run (the checks are shell commands that may read them, as under `load_outputs=all`) -/
+  checkDeps : Bool
 deriving DecidableEq
 
-def Fixes.current : Fixes := ⟨true, true, true, true, true⟩
+def Fixes.current : Fixes := ⟨true, true, true, true, true, true⟩
 
 structure Params (κ : Type) where
   K : KeyState κ → κ
@@ -187,7 +192,7 @@ def depOhs (st : Lbl → Option (TStat κ)) : List Lbl → Option (List (OH κ))
 
 def keyState (t : Target) (fs : FS) (ohs : List (OH κ)) : KeyState κ :=
   { label := t.label, cmd := t.cmd, inputs := t.inputs.map (fun p => (p, fs p)),
-    outs := t.outs, deps := ohs, fp := t.fp, plat := t.plat }
+    outs := t.outs, deps := t.hdeps.zip ohs, fp := t.fp, plat := t.plat }
 
 def outPathsOf (defs : Defs) (d : Lbl) : List Path :=
   match defs d with
@@ -206,7 +211,7 @@ def ohVals : OH κ → List (Path × Option Val)
 
 /-- the view a key-state encodes -/
 def viewOf (ks : KeyState κ) : View :=
-  { inputs := ks.inputs, deps := ks.deps.flatMap ohVals }
+  { inputs := ks.inputs, deps := ks.deps.flatMap (fun d => ohVals d.2) }
 
 def writeOuts (fs : FS) : Outs → FS
   | [] => fs
@@ -252,7 +257,7 @@ def execTarget (P : Params κ) (cfg : Cfg) (defs : Defs) (t : Target) (k : κ) (
   | none => (s2, false)
   | some ovs =>
     let nc := t.noCache || !cfg.enableCache
-    let oh : OH κ := if nc then .nocache ovs else if t.outs.isEmpty then .self k else .outs ovs
+    let oh : OH κ := if t.outs.isEmpty then .self k else if nc then .nocache ovs else .outs ovs
     let res : Result κ := { oh := oh, outs := if nc then [] else ovs }
     let cas' := if nc then s.cache.cas else addBlobs s.cache.cas ovs
     let taint' := if clr && P.fx.syncTaint then upd s.cache.taint t.label false else s.cache.taint
@@ -324,8 +329,9 @@ def tryHit (P : Params κ) (cfg : Cfg) (t : Target) (k : κ) (s : BState κ) : O
         | none => none
     else none
 
-/-- the walker callback for one target: dependencies first, change hash, task function -/
-def buildTarget (P : Params κ) (cfg : Cfg) (defs : Defs) (fuel : Nat) (t : Target) (s : BState κ) : BState κ :=
+/-- the walker callback for one target without the pre-loading of dependency outputs for output checks:
+    dependencies first, change hash, task function -/
+def buildTargetNoPre (P : Params κ) (cfg : Cfg) (defs : Defs) (fuel : Nat) (t : Target) (s : BState κ) : BState κ :=
   if depsOk s.st t.deps = false then failT s t.label else
   match depOhs s.st t.hdeps with
   | none => failT s t.label
@@ -338,5 +344,23 @@ def buildTarget (P : Params κ) (cfg : Cfg) (defs : Defs) (fuel : Nat) (t : Targ
       if !okl then failT s1 t.label else
       let (s2, ok) := execTarget P cfg defs t k (s.cache.taint t.label) s1
       if ok then s2 else failT s2 t.label
+
+/-- the walker callback for one target. In minimal mode a target with output checks first gets the outputs of its direct
+    dependencies materialised (`getTaskFunc`: `LoadDependencyOutputs` before `runOutputChecks`); a failure to do so fails
+    the target. (In the code the change hash is computed before that; loading dependency outputs does not touch resolved
+    inputs unless an input glob matches a dependency output — the open finding F-globout.) -/
+def buildTarget (P : Params κ) (cfg : Cfg) (defs : Defs) (fuel : Nat) (t : Target) (s : BState κ) : BState κ :=
+  if (cfg.minimal && P.fx.checkDeps && !t.checks.isEmpty && depsOk s.st t.deps) = true then
+    let (s0, ok0) := loadDepList P cfg defs fuel t.ldeps s
+    if !ok0 then failT s0 t.label else buildTargetNoPre P cfg defs fuel t s0
+  else buildTargetNoPre P cfg defs fuel t s
+
+theorem buildTarget_all_eq (P : Params κ) (cfg : Cfg) (defs : Defs) (fuel : Nat) (t : Target) (s : BState κ)
+    (hm : cfg.minimal = false) : buildTarget P cfg defs fuel t s = buildTargetNoPre P cfg defs fuel t s := by
+  simp [buildTarget, hm]
+
+theorem buildTarget_nochecks_eq (P : Params κ) (cfg : Cfg) (defs : Defs) (fuel : Nat) (t : Target) (s : BState κ)
+    (hc : t.checks = []) : buildTarget P cfg defs fuel t s = buildTargetNoPre P cfg defs fuel t s := by
+  simp [buildTarget, hc]
 
 end Grog.Exec
